@@ -93,6 +93,65 @@ def local_id_touched_only_in_open(sources, twin):
 framescan('C14/_local_id-touched-only-by-__init__-and-_open', ['C14'], local_id_touched_only_in_open,
           'the stream id counter is read and written only in __init__ and _open (where the engine checks the lock is held)')
 
+def exception_payload_is_kept_verbatim(classes):
+    """Side condition of A-MSG (the engine records which exception class is raised and its designated payload, and does
+    not execute the exception's constructor): every one of `classes` raised in adb_device*.py, adb_message.py and
+    hidden_helpers.py inherits its construction and rendering from `Exception` unchanged -- or, where the class has
+    methods of its own (DeviceAuthError formats printf-style), every raise site passes a single literal without '%'."""
+    special = ('__init__', '__new__', '__str__', '__repr__', '__reduce__', '__getattribute__', '__setattr__', 'args', 'with_traceback')
+
+    def own_members(exc, cname, seen=()):
+        cls = exc.classes.get(cname)
+        if cls is None:
+            return ['<unknown class %s>' % cname]
+        if cname in seen:
+            return []
+        out = []
+        for st in cls.body:
+            if isinstance(st, (ast.FunctionDef, ast.AsyncFunctionDef)) and st.name in special:
+                out.append('%s.%s' % (cname, st.name))
+            elif isinstance(st, ast.Assign) and any(isinstance(t, ast.Name) and t.id in special for t in st.targets):
+                out.append('%s.%s' % (cname, st.targets[0].id))
+        if cls.decorator_list or cls.keywords:
+            out.append('%s is decorated / has a metaclass' % cname)
+        for b in cls.bases:
+            bname = b.id if isinstance(b, ast.Name) else None
+            if bname is None:
+                out.append('%s has a computed base' % cname)
+            elif bname in exc.classes:
+                out.extend(own_members(exc, bname, seen + (cname,)))
+            elif bname not in ('Exception', 'IOError', 'OSError', 'ValueError', 'RuntimeError'):
+                out.append('%s derives from %s' % (cname, bname))
+        return out
+
+    def scan(sources, twin):
+        problems = []
+        exc = sources.module('exceptions')
+        for short in (MODS[twin][0], 'adb_message', 'hidden_helpers'):
+            m = sources.module(short)
+            for n in ast.walk(m.tree):
+                if not (isinstance(n, ast.Raise) and isinstance(n.exc, ast.Call)):
+                    continue
+                f = n.exc.func
+                if not (isinstance(f, ast.Attribute) and isinstance(f.value, ast.Name) and f.value.id == 'exceptions' and f.attr in classes):
+                    continue
+                own = own_members(exc, f.attr)
+                if not own:
+                    continue
+                literal_only = (len(n.exc.args) == 1 and not n.exc.keywords and isinstance(n.exc.args[0], ast.Constant)
+                                and isinstance(n.exc.args[0].value, str) and '%' not in n.exc.args[0].value)
+                if not literal_only:
+                    problems.append('%s.py:%d raises exceptions.%s with a computed payload, but the class overrides %s'
+                                    % (short, n.lineno, f.attr, ', '.join(own)))
+        return problems
+    return scan
+
+
+for _p, _cl in (('C10', ('AdbCommandFailureException', 'PushFailedError', 'InvalidResponseError')), ('C13', ('AdbConnectionError', 'DevicePathInvalidError')),
+                 ('C05', ('DeviceAuthError', 'InvalidResponseError')), ('C03', ('InvalidChecksumError', 'InvalidCommandError')), ('C11', ('AdbTimeoutError',))):
+    framescan('A-MSG/%s-keep-their-payload-verbatim' % '+'.join(_cl), [_p], exception_payload_is_kept_verbatim(_cl),
+              'side condition of A-MSG: no constructor / __str__ override on an exception class this property names when it is raised with a computed payload')
+
 # ---------------------------------------------------------------------------------------------------------------------
 # C14: the id sequence
 
